@@ -11,7 +11,7 @@ R5 every non-NONE WhatsModifiedFlag member is produced somewhere
 import ast
 
 from ..core import AnalysisError, norm, loc, walk_no_nested, attr_chain, call_name, func_params, kwarg
-from ..normalize import alpha, inline, local_env, expand, canon, ctext, branch_values, merge_outcomes, Unknown, eval_test, builders, comp_builder, _enclosing, conjuncts
+from ..normalize import alpha, inline, local_env, expand, canon, ctext, branch_values, merge_outcomes, Unknown, eval_test, builders, comp_builder, _enclosing, conjuncts, unroll_const_loops
 from .. import fieldwise as fw
 
 BASE = 'fim.slivers.base_sliver:BaseSliver'
@@ -372,6 +372,16 @@ def run(prog, rep):
                 if isinstance(e_, ast.Call) and call_name(e_) == 'diff':
                     rep.instance('R6', f'{cls.name}.diff: SUB_INTERFACES raised when `{norm(cj, 60)}`; the interface collections of that diff are inspected: {looks_inside}')
                     if looks_inside:
+                        # ... and at all three of them: a sub-interface can be added, removed or changed
+                        kinds = {x.value.attr for cj2 in cjs for x in ast.walk(cj2) if isinstance(x, ast.Attribute) and x.attr == 'interfaces' and
+                                 isinstance(x.value, ast.Attribute) and x.value.attr in ('added', 'removed', 'modified')}
+                        # (a level that passes the flag of its modified children on is not an inspection of sub-interfaces itself)
+                        passes_on = any(isinstance(x, ast.Attribute) and x.attr == 'SUB_INTERFACES' for cj2 in cjs for x in ast.walk(cj2))
+                        if kinds and kinds != {'added', 'removed', 'modified'} and not passes_on:
+                            rep.violation('R6', loc(cls.module, st), f'{cls.name}.diff',
+                                          f'SUB_INTERFACES looks at {sorted(kinds)} sub-interfaces only',
+                                          f'the flag is raised from the {sorted(kinds)} collections of the nested diff only: a sub-interface that was '
+                                          f'{sorted({"added", "removed", "modified"} - kinds)} under a dedicated port is not reported at all')
                         continue
                     rep.violation('R6', loc(cls.module, st), f'{cls.name}.diff', f'SUB_INTERFACES raised whenever `{norm(e_, 50)}` reports anything',
                                   f'the flag is raised when the nested diff is non-empty; that diff is also non-empty when only the element\'s own labels, '
@@ -384,7 +394,8 @@ def run(prog, rep):
     oth = other_param(pd)
     pairs = {'LABELS': 'get_labels', 'CAPACITIES': 'get_capacities', 'USER_DATA': 'get_user_data'}
     seen = {}
-    pdi = inline(prog, base, pd)
+    # a class-level table of (reader, flag) rows is read row by row
+    pdi = unroll_const_loops(prog, base, inline(prog, base, pd))
     penv = local_env(pdi)
 
     def getter_of(e, var=None, table=None):
@@ -514,6 +525,8 @@ NN = 'fim/slivers/network_node.py'
 MUTANTS = [
     {'name': 'fpga-sub-interfaces-not-compared', 'file': 'fim/slivers/network_node.py', 'rule': 'R6',
      'find': 'if cA.get_type() in (ComponentType.SmartNIC, ComponentType.FPGA) and \\\n', 'replace': 'if cA.get_type() == ComponentType.SmartNIC and \\\n'},
+    {'name': 'modified-sub-interfaces-not-flagged', 'file': 'fim/slivers/network_service.py', 'rule': 'R6',
+     'find': 'if if_diff and (if_diff.added.interfaces or if_diff.removed.interfaces or if_diff.modified.interfaces):', 'replace': 'if if_diff and (if_diff.added.interfaces or if_diff.removed.interfaces):'},
     {'name': 'sub-interfaces-flag-on-any-difference', 'file': 'fim/slivers/network_service.py', 'rule': 'R6',
      'find': 'if if_diff and (if_diff.added.interfaces or if_diff.removed.interfaces or if_diff.modified.interfaces):', 'replace': 'if if_diff:'},
     {'name': 'node-services-diff-both-other', 'file': NN, 'rule': 'R1',
